@@ -9,6 +9,20 @@ COMMON_ASSUMPTIONS = [
 ]
 
 PROPS = {
+    "C03": {
+        "level": "exploration",
+        "rule": "rapid draws a conforming message of any kind (Sign1 tagged/untagged, Sign with 1..4 signers, nested countersignatures; all 7 algorithms; peer encoder choices) signed by the reference implementation, then one attack class: 1-2 structure-aware tree/byte faults biased to stay decodable (content bit flips, truncation, head-width and key-order changes, parameters added/moved between buckets, declared counts, ...), a signature rewrite (DER, (r, n-s), zero-extended / minimal / swapped halves, truncate, extend, bit flip), changed external data (nil<->empty, replaced, dropped, flipped), another key / another algorithm / same key under another algorithm / permuted verifiers, re-tagging (18<->none, COSE_Signature presented as Sign1), transplant of one envelope field from a second message signed with the same keys, or no change. Oracle: whenever the library decodes the bytes, for every message signature and every countersignature still present, library verdict (nil / error) == reference verdict computed from the received bytes (non-empty signature, alg rule on the received protected map, crypto/* verification of the reference Sig_structure / Countersign_structure); both directions are failures. Non-trivial = something was changed (bytes, external data or key) and the message stayed decodable so that verdicts were compared; distinct by hash of (wire, external, class, keys). Thorough adds rapid.MakeFuzz under the native fuzzer.",
+        "parts": [
+            {"test": "TestC03_Mutants", "quick": 1500, "thorough": 40000, "shards_quick": 8, "shards_thorough": 16},
+            {"fuzz": "FuzzC03", "fuzztime": "180s", "thorough_only": True},
+        ],
+        "required_classes": ["nontrivial/verdict-flipped", "nontrivial/verdict-preserved", "verdict/valid", "verdict/bad-signature", "verdict/alg-mismatch",
+                             "verdict/alg-absent", "verdict/csig-valid", "verdict/csig-bad-signature", "verdict/csig0-valid", "verdict/csig0-bad-signature",
+                             "class/tree", "class/signature", "class/external", "class/key", "class/retag", "class/transplant",
+                             "alg/ES256/valid", "alg/ES384/valid", "alg/ES512/valid", "alg/EdDSA/valid", "alg/PS256/valid", "alg/PS384/valid", "alg/PS512/valid",
+                             "alg/ES256/bad-signature", "alg/ES384/bad-signature", "alg/ES512/bad-signature", "alg/EdDSA/bad-signature", "alg/PS256/bad-signature"],
+        "assumptions": COMMON_ASSUMPTIONS + ["unforgeability is assumed: 'any change => error' is decided by the reference verifier built on the same crypto/* primitives", "mutated inputs the library refuses to decode are C05's business and only counted"],
+    },
     "C05": {
         "level": "exploration",
         "rule": "rapid draws a valid encoding of one of the 7 decodable kinds (Sign1, untagged Sign1, Sign, Signature, Countersignature, protected bucket, unprotected bucket; peer encoder choices; nested countersignatures up to 3 levels) and applies 1-3 faults at drawn nodes of its CBOR tree, protected-header contents included (retype, tag-wrap, indefinite length, head width, wrong declared count, duplicate key in another width, add/remove/swap element, inject any registered parameter with a conforming or non-conforming value, move a parameter between buckets, out-of-range or non-label key, bytes after the item / inside the protected bstr, change of major type, content and integer edits, byte-level flip/insert/delete/truncate/append). The same bytes are offered to all 7 decoders. Oracle: decoder accepts => the independent reference judge finds the input well-formed for that decoder exactly in the sense of the property statement. Non-trivial = the input differs from its seed and either some decoder accepted it (the implication was evaluated on a new input) or the reference finds it ill-formed for the seed's own kind (a rejection rule was put to the test); distinct by hash of the input. Thorough adds coverage-guided native fuzzing with the same oracle inside the target (seeded and empty corpus).",
